@@ -334,7 +334,7 @@ STATE_FILES = ["bip32.py", "base_wallet.py", "paper_wallet.py", "bip85.py", "wal
 
 
 TOPS = ["ckd0", "ckd1", "ckd2", "bpA", "bpB", "bpDeep", "bpDeep2", "children", "gen", "xkeys", "wif0", "wif1", "hex", "wasabi", "p2wpkh", "p2sh_p2wsh", "p2pkh0", "p2pkh1",
-        "generate", "wifnode", "xprvnode", "parsexpub", "h_bech32", "h_b58", "h_script", "h_wif", "h_varint"]
+        "generate", "wifnode", "xprvnode", "ser9", "parsexpub", "h_bech32", "h_b58", "h_script", "h_wif", "h_varint"]
 
 
 def harness(name):
@@ -348,7 +348,7 @@ def harness(name):
         master = w.master
         c = hdscen.canon_impl_node
         need = set(ops)
-        m0 = master.ckd(0) if need & {"children", "gen", "p2wpkh", "p2sh_p2wsh", "p2pkh0", "wifnode", "xprvnode"} else None
+        m0 = master.ckd(0) if need & {"children", "gen", "p2wpkh", "p2sh_p2wsh", "p2pkh0", "wifnode", "xprvnode", "ser9"} else None
         xpub_m = hd.xpub(hd.derive(master_ref(), [5]))
         m1 = master.ckd(1) if "p2pkh1" in need else None
         acct = w.by_path("m/84'/0'/0'") if "xkeys" in need else None
@@ -372,6 +372,9 @@ def harness(name):
             "generate": lambda: project(w.generate(1, (0, 1)), _gen_exp()),
             "wifnode": lambda: m0.private_key.wif(testnet=False),
             "xprvnode": lambda: [m0.extended_private_key(), m0.extended_public_key()],
+            # nine serialisations in ONE thread: while the other thread is held inside one of its own, a pool / ring of up to
+            # eight scratch objects goes once round
+            "ser9": lambda: [m0.extended_public_key() if j % 2 else m0.extended_private_key() for j in range(9)],
             "parsexpub": lambda: c(type(master).__mro__[1].parse(xpub_m)),
             "h_bech32": _h_bech32, "h_b58": _h_b58, "h_script": _h_script, "h_wif": _h_wif, "h_varint": _h_varint,
         }
@@ -523,6 +526,8 @@ def expected_op(op):
         return hd.wif(hd.derive(m, [0]).k), []
     if op == "xprvnode":
         return [hd.xprv(hd.derive(m, [0])), hd.xpub(hd.derive(m, [0]))], []
+    if op == "ser9":
+        return [hd.xpub(hd.derive(m, [0])) if j % 2 else hd.xprv(hd.derive(m, [0])) for j in range(9)], []
     if op == "parsexpub":
         return hdscen.canon_ref_node(hd.neuter(hd.derive(m, [5]))), []
     if op == "generate":
@@ -728,11 +733,12 @@ def plan_for(thorough):
     for i, a in enumerate(b85):
         for b in b85[i:]:
             pairs.append((a, b))
-    pairs += [("xkeys", "xkeys"), ("xkeys", "ckd0"), ("wif0", "bpA"), ("wasabi", "bpA"), ("wasabi", "wif0"), ("bpDeep", "bpB"), ("bpDeep", "bpDeep2")]
+    pairs += [("xprvnode", "ser9"), ("xkeys", "ser9"), ("xkeys", "xkeys"), ("xkeys", "ckd0"), ("wif0", "bpA"), ("wasabi", "bpA"), ("wasabi", "wif0"), ("bpDeep", "bpB"), ("bpDeep", "bpDeep2")]
     if thorough:
-        state_ops = [o for o in TOPS if o not in ("p2wpkh", "p2sh_p2wsh", "p2pkh0", "p2pkh1", "generate", "ckd2", "wifnode", "xprvnode", "parsexpub")
+        state_ops = [o for o in TOPS if o not in ("p2wpkh", "p2sh_p2wsh", "p2pkh0", "p2pkh1", "generate", "ckd2", "wifnode", "xprvnode", "ser9", "parsexpub")
                      and not o.startswith("h_")]
-        pairs = [(a, b) for i, a in enumerate(state_ops) for b in state_ops[i:]]
+        keep_pairs = [p_ for p_ in pairs if "ser9" in p_]
+        pairs = [(a, b) for i, a in enumerate(state_ops) for b in state_ops[i:]] + keep_pairs
     for a, b in pairs:
         name = "%s|%s" % (a, b)
         if name not in ("ckd0|ckd0", "ckd0|ckd1"):
